@@ -24,7 +24,8 @@ Exceptions (first in program order): `Y[0]` on an empty list → `IndexError`; `
 different sample counts → `ValueError`; `np.dot(U1[:, :ordmax], S1rad[:ordmax, :ordmax])` with clipped,
 unequal slices → `ValueError`; `Obs[ref_id, :]` / `Obs[mov_id, :]` with an index array without entries
 (`np.array([])` is float64: no reference or no roving sensor) or an index past the last row → `IndexError`;
-`range(0, ordmax + 1, 0)` → `ValueError` (after the setup loop and the `qr`).
+`range(0, ordmax + 1, 0)` → `ValueError` (after the setup loop and the `qr`); `np.linalg.inv(R[:i, :i])` of a clipped,
+non-square slice (an order above the number of rows of `O_p`) → `LinAlgError`.
 
 Three situations are reported as `unmodelled: …` (the harness never compares them; none can arise from
 `gen.pre_multisetup` output with equally many references per setup and `br ≥ 1`):
@@ -146,6 +147,9 @@ def ssiMultiSetup (Y : List (Setup L)) (br ordmax step : Nat) (rc : MsRec K) : E
       let O_p := upPart Obs_all h.n_DOF
       -- for i in trange(0, ordmax + 1, step)
       if step = 0 then .error "ValueError" else
+      -- np.linalg.inv(R[:i, :i]): the slice clips to min(i, R.shape[0]) x min(i, R.shape[1]); not square -> LinAlgError
+      if (List.range ((ordmax + 1 + step - 1) / step)).any
+          (fun k => decide (min (k * step) rc.R.r ≠ min (k * step) rc.R.c)) then .error "LinAlgError" else
       let AC := fastLists rc.Rinv rc.Q Obs_all h.n_DOF ordmax step
       .ok { head := h, hankArgs := ps.map (·.1), pinvArgs := ps.map (·.2), obsAll := Obs_all, qrArg := O_p,
             invArgs := (List.range ((ordmax + 1 + step - 1) / step)).map fun k => leadBlock rc.R (k * step),
